@@ -21,6 +21,9 @@ type c17Case struct {
 	Clients []c17Client `json:"clients"`
 	Real    bool        `json:"real,omitempty"`
 	ChanBuf int         `json:"chanBuf"`
+	// Broadcast: after the clients' traffic the server pushes ONE notification value and ONE message value, neither naming
+	// a destination, to every session it has (what a chat server does with the channels it kept from Established)
+	Broadcast bool `json:"broadcast,omitempty"`
 }
 
 type c17Handled struct {
@@ -41,6 +44,7 @@ type c17Obs struct {
 	EstRemote   map[string]string `json:"estRemote"`   // session id -> RemoteNode() of the channel passed to Established
 	Note        string            `json:"note,omitempty"`
 	SendErrs    []string          `json:"sendErrs,omitempty"`
+	Pushed      map[int][]string  `json:"pushed,omitempty"` // per client: the `to` of each broadcast envelope it received
 }
 
 func c17Assigned(idx int) lime.Node {
@@ -58,6 +62,7 @@ type c17Server struct {
 	estRem  map[string]string
 	mux     *lime.EnvelopeMux
 	cfg     *lime.ServerConfig
+	chans   []*lime.ServerChannel
 }
 
 func newC17Server(chanBuf int) *c17Server {
@@ -103,6 +108,7 @@ func newC17Server(chanBuf int) *c17Server {
 		s.mu.Lock()
 		s.estIDs = append(s.estIDs, id)
 		s.estRem[id] = NodeText(ch.RemoteNode())
+		s.chans = append(s.chans, ch)
 		s.mu.Unlock()
 	}
 	s.cfg = cfg
@@ -114,6 +120,7 @@ type c17ClientRun struct {
 	ch      *lime.ClientChannel
 	mu      sync.Mutex
 	replies []string
+	pushed  []string
 }
 
 // c17RunClients establishes every client concurrently, runs their traffic, and collects the replies they receive.
@@ -158,7 +165,11 @@ func c17RunClients(c *c17Case, dial func(kind string, idx int) (lime.Transport, 
 		go func() {
 			for m := range r.ch.MsgChan() {
 				r.mu.Lock()
-				r.replies = append(r.replies, m.ID)
+				if strings.HasPrefix(m.ID, "bc-") {
+					r.pushed = append(r.pushed, NodeText(m.To))
+				} else {
+					r.replies = append(r.replies, m.ID)
+				}
 				r.mu.Unlock()
 			}
 		}()
@@ -170,7 +181,12 @@ func c17RunClients(c *c17Case, dial func(kind string, idx int) (lime.Transport, 
 			}
 		}()
 		go func() {
-			for range r.ch.NotChan() {
+			for n := range r.ch.NotChan() {
+				if strings.HasPrefix(n.ID, "bc-") {
+					r.mu.Lock()
+					r.pushed = append(r.pushed, NodeText(n.To))
+					r.mu.Unlock()
+				}
 			}
 		}()
 		go func() {
@@ -325,6 +341,25 @@ func judgeC17(c *c17Case, obs *c17Obs, o *Outcome) {
 			o.Fail("C17/context-local-node", "envelope %s handled with local node %q", h.Tag, h.Local)
 		}
 	}
+	// what the server pushes to everybody names nobody, or the session it arrives on
+	if c.Broadcast {
+		o.Class("server-broadcast")
+		for i := range c.Clients {
+			if i >= len(obs.ClientLocal) {
+				break
+			}
+			if len(obs.Pushed[i]) != 2 && c.Real {
+				o.Class("broadcast-not-seen-within-the-time-budget") // real sockets on a busy machine: decides nothing
+			} else if len(obs.Pushed[i]) != 2 {
+				o.Fail("C17/broadcast-not-received", "client %d received %d of the 2 envelopes the server pushed to every session", i, len(obs.Pushed[i]))
+			}
+			for _, to := range obs.Pushed[i] {
+				if to != "" && to != obs.ClientLocal[i] {
+					o.Fail("C17/broadcast-carries-another-sessions-node", "client %d (announced as %q) received a pushed envelope addressed to %q", i, obs.ClientLocal[i], to)
+				}
+			}
+		}
+	}
 	// replies: each client receives exactly its own
 	for i, cl := range c.Clients {
 		want := map[string]int{}
@@ -353,8 +388,27 @@ func judgeC17(c *c17Case, obs *c17Obs, o *Outcome) {
 	}
 }
 
+// c17Broadcast: the server pushes one notification value and one message value to every session.
+func c17Broadcast(srv *c17Server) {
+	srv.mu.Lock()
+	chans := append([]*lime.ServerChannel(nil), srv.chans...)
+	srv.mu.Unlock()
+	n := &lime.Notification{Event: lime.NotificationEventReceived}
+	n.ID = "bc-n"
+	m := &lime.Message{}
+	m.ID = "bc-m"
+	m.SetContent(lime.TextDocument("to everybody"))
+	for _, ch := range chans {
+		ctx, cancel := context.WithTimeout(context.Background(), 5*time.Second)
+		_ = ch.SendNotification(ctx, n)
+		_ = ch.SendMessage(ctx, m)
+		cancel()
+	}
+}
+
 func c17Collect(c *c17Case, srv *c17Server, runs []*c17ClientRun, obs *c17Obs) {
 	obs.Replies = map[int][]string{}
+	obs.Pushed = map[int][]string{}
 	for i, r := range runs {
 		if r == nil || r.ch == nil {
 			obs.ClientSID = append(obs.ClientSID, "")
@@ -365,6 +419,7 @@ func c17Collect(c *c17Case, srv *c17Server, runs []*c17ClientRun, obs *c17Obs) {
 		obs.ClientLocal = append(obs.ClientLocal, NodeText(r.ch.LocalNode()))
 		r.mu.Lock()
 		obs.Replies[i] = append([]string(nil), r.replies...)
+		obs.Pushed[i] = append([]string(nil), r.pushed...)
 		r.mu.Unlock()
 	}
 	srv.mu.Lock()
